@@ -248,6 +248,27 @@ def _run_single(case, tables, trace):
                         raise Violation("C07/rebuild/" + label, {
                             "step": step, "actor": j, "hash_history": h, "hash_rebuilt": ht,
                             "content": short(json.dumps(c, default=repr), 600)})
+                if not model.hmeta_unknown:
+                    # ... and a twin built from the content the HISTORY defines (reference model): the object reached
+                    # through the history must hash like a direct build of that content
+                    st = lambda x: tuple(sorted(x, key=tag))  # noqa
+                    mc = {"kind": kind, "weighted": model.weighted, "hmeta": json.loads(json.dumps(model.hmeta)),
+                          "nodes": {n: json.loads(json.dumps(md)) for n, md in model.nodes.items()}, "edges": []}
+                    for k, (wt, md) in model.edges.items():
+                        e = st(k) if kind == "H" else ((st(k[0]), st(k[1])) if kind == "D" else ((k[0], st(k[1])) if kind == "T" else (st(k[0]), k[1])))
+                        mc["edges"].append([e, wt, json.loads(json.dumps(md))])
+                    try:
+                        twin = O.build(kind, mc, random.Random(crng.random()))
+                        ht = _hash(twin)
+                        dt = O.content_digest(O.extract(kind, twin))
+                    except Exception:  # noqa
+                        dt = None
+                    if dt is not None and dt == O.content_digest(mc):
+                        stats_extra["rebuilds_from_history_content"] = stats_extra.get("rebuilds_from_history_content", 0) + 1
+                        if ht != h:
+                            raise Violation("C07/rebuild/from-history-content", {
+                                "step": step, "actor": j, "hash_history": h, "hash_direct_build": ht,
+                                "content": short(json.dumps(model.content(), default=repr), 600)})
                 for name, ec, wtd in _edits(kind, c, w.U):
                     try:
                         twin = O.build(kind, ec, None, weighted=wtd)
